@@ -108,7 +108,7 @@ Reopen(e) ==
         stable      |-> e.changed = 0 ]
 
 Open(e) ==   \* after a simulated crash; pre was scanned before NewStorage ran
-  LET pre == ToSet(e.pre)   post == ToSet(e.snap) IN
+  LET pre == ToSet(e.pre)   post == IF e.same THEN ToSet(e.pre) ELSE ToSet(e.snap) IN
       [ openOK      |-> e.res = "ok",
         openFromPut |-> pre \subseteq everPut,
         openSizeRec |-> RecVal(e.preRec) >= SumLen(pre) /\ (e.res = "ok" => RecVal(e.sizeRec) >= SumLen(post)),
@@ -157,12 +157,15 @@ Next ==
        [] e.ev = "recheck" ->
             /\ Flag(Recheck(e))
             /\ UNCHANGED <<node, cap, db, rec, radius, everPut, bigSeen>>
+       [] e.ev = "reinit" ->   \* next experiment on the same history: the ghost of offered items is kept
+            /\ db' = {} /\ rec' = -1 /\ radius' = MaxRad
+            /\ UNCHANGED <<node, cap, everPut, bigSeen, viol>>
        [] e.ev = "crashrun" ->
             /\ everPut' = everPut \cup ToSet(e.issued)
             /\ UNCHANGED <<node, cap, db, rec, radius, bigSeen, viol>>
        [] e.ev = "open" ->
             /\ Flag(Open(e))
-            /\ db' = ToSet(e.snap) /\ rec' = e.sizeRec /\ radius' = e.radius
+            /\ db' = (IF e.same THEN ToSet(e.pre) ELSE ToSet(e.snap)) /\ rec' = e.sizeRec /\ radius' = e.radius
             /\ bigSeen' = TRUE          \* the history before a crash is not size-restricted
             /\ UNCHANGED <<node, cap, everPut>>
        [] e.ev = "quiescent" ->
